@@ -129,6 +129,35 @@ def check_setkey(c):
             raise Violation("hmac:after-setkey!=fresh-object", fresh, got)
 
 
+def check_shared(c):
+    """two HMAC objects over ONE hash instance, and plain use of that instance in between (HMAC only borrows the hash: it
+    starts every computation with a one-shot call, so nothing may leak in either direction)"""
+    name = c["hash"]
+    h = guard(make, name)
+    macs = [guard(HMAC, h, K) for K in c["keys"]]
+    for i, (who, M) in enumerate(c["calls"]):
+        if who == "hash":
+            got, exp = guard(h, M), refhash(name, M)
+            if got != exp:
+                raise Violation("hmac:shared-hash:plain-digest-disturbed", {"call": i, "d": exp}, {"call": i, "d": got})
+            continue
+        j = who % len(macs)
+        got = guard(macs[j], M)
+        exp = expected(name, c["keys"][j], M)
+        if got != exp:
+            raise Violation("hmac:shared-hash:%s" % kclass(name, c["keys"][j]), {"call": i, "mac": exp}, {"call": i, "mac": got})
+
+
+def shared_strategy(tier):
+    def for_hash(name):
+        B = blockbytes(name)
+        kl = gen.pick((2, st.sampled_from([0, 1, B - 1, B, B + 1, 2 * B])), (2, gen.uint(0, B)), (1, gen.uint(B + 1, 2 * B + 5)))
+        call = st.tuples(gen.pick((4, gen.uint(0, 5)), (1, st.just("hash"))), gen.blob_of(gen.pick((3, gen.uint(0, B + 3)), (1, st.sampled_from([B, 2 * B])))))
+        return st.builds(lambda ks, calls: {"hash": name, "keys": tuple(ks), "calls": tuple(calls)},
+                         st.lists(gen.blob_of(kl), min_size=2, max_size=3), st.lists(call, min_size=3, max_size=6))
+    return st.sampled_from(HASHES).flatmap(for_hash)
+
+
 def setkey_strategy(tier):
     def for_hash(name):
         B = blockbytes(name)
@@ -145,6 +174,11 @@ FACETS = [
     Facet("random", check_hmac, strategy=random_strategy, budget={"quick": 1200, "thorough": 30000},
           nontrivial=lambda c: len(c["K"]) > 0, classify=lambda c: (c["hash"], kclass(c["hash"], c["K"]), "|M|>B" if len(c["M"]) > blockbytes(c["hash"]) else "|M|<=B"),
           rule="key length boundary-biased around the block and digest size, content random/constant/single-bit, messages 0..3 blocks"),
+    Facet("shared-hash-histories", check_shared, strategy=shared_strategy, budget={"quick": 500, "thorough": 10000},
+          nontrivial=lambda c: True,
+          classify=lambda c: (c["hash"], "plain hash call in between" if any(w == "hash" for w, _ in c["calls"]) else "macs only"),
+          rule="2..3 HMAC objects with different keys over ONE hash instance, 3..6 interleaved calls (and plain digests by that instance): "
+               "every MAC == RFC 2104 value, every plain digest == the hash's own"),
     Facet("setkey-histories", check_setkey, strategy=setkey_strategy, budget={"quick": 600, "thorough": 12000},
           nontrivial=lambda c: True,
           classify=lambda c: (c["hash"],) + tuple("%s->%s" % (kclass(c["hash"], a), kclass(c["hash"], b)) for a, b in zip(c["keys"], c["keys"][1:])),
